@@ -543,7 +543,32 @@ def matches_in(body, pred):
 # ---------------------------------------------------------------------------------------------------------------------
 # path enumeration: the feasible paths through a (helper-inlined) body under an oracle that decides some conditions
 # ---------------------------------------------------------------------------------------------------------------------
-def paths(body, oracle, limit=400, arm_oracle=None):
+def _pat_decides(pat, val):
+    """does a value known by its constructor ("ctor", name) match the pattern: True / False / None (depends on more)"""
+    if pat is None:
+        return None
+    while pat.get("k") in ("ref", "deref"):
+        pat = pat["pat"]
+    k = pat.get("k")
+    if k == "wild" or (k == "bind" and "sub" not in pat):
+        return True
+    if k == "or":
+        rs = [_pat_decides(q, val) for q in pat["pats"]]
+        if any(r is True for r in rs):
+            return True
+        return False if all(r is False for r in rs) else None
+    if k in ("ts", "struct", "ppath"):
+        name = last(pat["res"].get("path") or "")
+        if name not in ("Ok", "Err", "Some", "None"):
+            return None
+        if name != val[1]:
+            return False
+        subs = pat.get("pats") or [f_.get("pat") for f_ in pat.get("fields", [])]
+        return True if all(q is not None and (q.get("k") == "wild" or (q.get("k") == "bind" and "sub" not in q)) for q in subs) else None
+    return None
+
+
+def paths(body, oracle, limit=400, arm_oracle=None, decisions=False):
     """Enumerate control paths through `body`.  oracle(cond_node) → True / False / None (unknown: both branches).
     Each path is (events, exit) with events a list of
         ("assign", lhs_text, rhs_node) | ("assignop", lhs_text, op, rhs_node) | ("call", callee_or_method, node)
@@ -593,6 +618,8 @@ def paths(body, oracle, limit=400, arm_oracle=None):
             return run(0, evs)
         if kind == "lit" and n.get("lk") == "bool":
             return k(bool(n["v"]), evs)
+        if decisions and kind == "path" and n.get("res", {}).get("r") == "ctor" and last(n["res"].get("path") or "") == "None":
+            return k(("ctor", "None"), evs)
         if kind == "path" and n.get("res", {}).get("r") == "local":
             for e_ in reversed(evs):
                 if e_[0] == "bind" and e_[1] == n["res"].get("id"):
@@ -605,14 +632,23 @@ def paths(body, oracle, limit=400, arm_oracle=None):
                 o = oracle(c)
                 if o is None:
                     o = v
+                if isinstance(o, tuple) and strip(c).get("k") == "let":
+                    o = _pat_decides(strip(c).get("pat"), o)
+                if not isinstance(o, bool):
+                    o = None
+                dt = [("if", n, True)] if decisions else []
+                df = [("if", n, False)] if decisions else []
                 if o is None or o is True:
-                    ev(n["t"], e2, k)
+                    ev(n["t"], e2 + dt, k)
                 if o is None or o is False:
                     if n.get("e") is not None:
-                        ev(n["e"], e2, k)
+                        ev(n["e"], e2 + df, k)
                     else:
-                        k(None, e2)
+                        k(None, e2 + df)
             if strip(c).get("k") == "let":
+                if decisions:
+                    # the scrutinee of `if let` is evaluated (and its calls happen) before the branch is chosen
+                    return ev(strip(c).get("init"), evs, lambda v, e2: after_cond(v if isinstance(v, tuple) else None, e2))
                 return after_cond(None, evs)
             return ev(c, evs, after_cond)
         if kind == "match":
@@ -637,11 +673,19 @@ def paths(body, oracle, limit=400, arm_oracle=None):
                                 ev(a["body"], e2, k)
                                 return
                         return
-                for a in n["arms"]:
+                for ai_, a in enumerate(n["arms"]):
                     lit = a["pat"].get("lit", {}).get("v") if a["pat"].get("k") == "plit" else None
                     if v is not None and lit is not None and lit != v:
                         continue
-                    ev(a["body"], e2, k)
+                    if isinstance(v, tuple):
+                        dec_ = _pat_decides(a["pat"], v)
+                        if dec_ is False:
+                            continue
+                        ev(a["body"], e2 + ([("arm", n, ai_)] if decisions else []), k)
+                        if dec_ is True and a.get("guard") is None:
+                            break
+                        continue
+                    ev(a["body"], e2 + ([("arm", n, ai_)] if decisions else []), k)
                     if v is not None and (lit == v or a["pat"].get("k") in ("wild", "bind")):
                         break
             return ev(n["scrut"], evs, after_scrut)
@@ -678,7 +722,7 @@ def paths(body, oracle, limit=400, arm_oracle=None):
         if kind == "assignop":
             return ev(n["r"], evs, lambda v, e2: k(None, e2 + [("assignop", render(n["l"]), n.get("op"), n["r"])]))
         if kind == "un" and n.get("op") == "!":
-            return ev(n["e"], evs, lambda v, e2: k((not v) if v is not None else None, e2))
+            return ev(n["e"], evs, lambda v, e2: k((not v) if isinstance(v, bool) else None, e2))
         if kind in ("call", "mcall"):
             subs = ([n["recv"]] if kind == "mcall" else []) + list(n.get("args", []))
 
@@ -686,6 +730,9 @@ def paths(body, oracle, limit=400, arm_oracle=None):
                 if i < len(subs):
                     return ev(subs[i], e2, lambda v, e3: runargs(i + 1, e3))
                 o = oracle(n)
+                if decisions and kind == "call" and n.get("ctor") and last(n["ctor"]) in ("Ok", "Err", "Some"):
+                    # the value built is known by its constructor: a later `if let Err(e) = v` / `match v` on it is decided
+                    return k(("ctor", last(n["ctor"])), e2)
                 return k(o, e2 + [("call", n.get("callee") or n.get("m"), n)])
             return runargs(0, evs)
         if kind in ("ref", "cast", "field", "index"):
@@ -910,7 +957,10 @@ def beta(n, env=None):
         for st in n.get("stmts", []):
             st2 = beta(st, env2)
             pat = st2.get("pat", {}) if st2.get("k") == "let" else {}
-            if pat.get("k") == "bind" and st2.get("init") is not None and strip(st2["init"]).get("k") == "closure" and "Mut" not in str(pat.get("mode", "")):
+            if pat.get("k") == "bind" and st2.get("init") is not None and strip(st2["init"]).get("k") == "closure" and (
+                    "Mut" not in str(pat.get("mode", "")) or
+                    # `mut emit: F` with F: FnMut is mutable only to be called; it still names this one closure unless it is assigned
+                    not any(x.get("k") == "assign" and local_id(strip(x["l"])) == pat["id"] for x in walk(n))):
                 env2[pat["id"]] = strip(st2["init"])
             stmts.append(st2)
         out = dict(n)
@@ -1017,7 +1067,7 @@ def normal(F, node, keep=(), max_size=400):
     and function values handed to helpers applied, named single-assignment intermediates substituted, `let (a, b) = (x, y)`
     split"""
     skip = (lambda c: last(c) in keep) if keep else ()
-    return beta(unlet(split_tuple_lets(inline_helpers(F, node, max_size=max_size, skip=skip))))
+    return desugar_combinators(beta(unlet(split_tuple_lets(inline_helpers(F, node, max_size=max_size, skip=skip)))))
 
 
 def replace_nodes(n, by_id):
@@ -1118,3 +1168,67 @@ def specialise_value(n, lid, val):
             return dict(x, stmts=st, expr=go(x.get("expr")) if x.get("expr") is not None else None)
         return {kk: (go(v) if isinstance(v, (dict, list)) else v) for kk, v in x.items()}
     return go(n)
+
+
+_FRESH = [0]
+
+
+def desugar_combinators(n):
+    """copy of n in which the Result / Option combinators taking a closure literal are written as the match they perform:
+        r.and_then(|x| e)  ≡  match r { Ok(x) => e,      Err(e0) => Err(e0) }
+        r.map(|x| e)       ≡  match r { Ok(x) => Ok(e),  Err(e0) => Err(e0) }
+        r.map_err(|x| e)   ≡  match r { Ok(v0) => Ok(v0), Err(x) => Err(e) }
+        o.and_then / o.map ≡  the same over Some / None;  o.ok_or_else(|| e), r/o.unwrap_or_else(|x| e) likewise
+    so that a rule reading matches, arms and the calls inside them reads these as well."""
+    if isinstance(n, list):
+        return [desugar_combinators(x) for x in n]
+    if not isinstance(n, dict):
+        return n
+    n2 = {k: desugar_combinators(v) for k, v in n.items()}
+    if n2.get("k") != "mcall" or n2.get("m") not in ("and_then", "map", "map_err", "unwrap_or_else", "ok_or_else", "or_else") or len(n2.get("args", [])) != 1:
+        return n2
+    cl = n2["args"][0]
+    while cl.get("k") == "block" and not cl.get("stmts") and cl.get("expr") is not None:
+        cl = cl["expr"]
+    cal = n2.get("callee") or n2.get("decl") or ""
+    kind = "result" if cal.startswith("std::result::Result::") else ("option" if cal.startswith("std::option::Option::") else None)
+    if cl.get("k") != "closure" or kind is None or len(cl.get("params", [])) > 1:
+        return n2
+    line, ty, rty = n2.get("line"), n2.get("ty"), n2.get("recv_ty") or n2["recv"].get("ty")
+    yes, no = ("Ok", "Err") if kind == "result" else ("Some", "None")
+
+    def ctor(name, arg, ty_):
+        path = "std::prelude::v1::" + name
+        if arg is None:
+            return {"k": "path", "res": {"r": "ctor", "path": path}, "ty": ty_, "line": line}
+        return {"k": "call", "ctor": path, "f": {"k": "path", "res": {"r": "ctor", "path": path}, "line": line}, "args": [arg], "ty": ty_, "line": line}
+
+    def fresh(nm):
+        _FRESH[0] += 1
+        i = "ds.%d" % _FRESH[0]
+        return {"k": "bind", "name": nm, "id": i, "mode": "BindingMode(No, Not)"}, {"k": "path", "res": {"r": "local", "name": nm, "id": i}, "line": line}
+
+    def pat(name, sub):
+        if sub is None:
+            return {"k": "ppath", "res": {"r": "ctor", "path": "std::prelude::v1::" + name}}
+        return {"k": "ts", "res": {"r": "ctor", "path": "std::prelude::v1::" + name}, "pats": [sub]}
+    cp = cl["params"][0] if cl.get("params") else {"k": "wild"}
+    body = cl["body"]
+    m = n2["m"]
+    pb, pv = fresh("v0")
+    if m in ("and_then", "map"):
+        taken = pat(yes, cp), (body if m == "and_then" else ctor(yes, body, ty))
+        other = (pat(no, pb), ctor(no, pv, ty)) if kind == "result" else (pat(no, None), ctor(no, None, ty))
+        arms = [taken, other]
+    elif m == "map_err" and kind == "result":
+        arms = [(pat("Ok", pb), ctor("Ok", pv, ty)), (pat("Err", cp), ctor("Err", body, ty))]
+    elif m == "unwrap_or_else":
+        arms = [(pat(yes, pb), pv), ((pat(no, cp) if kind == "result" else pat(no, None)), body)]
+    elif m == "ok_or_else" and kind == "option":
+        arms = [(pat("Some", pb), ctor("Ok", pv, ty)), (pat("None", None), ctor("Err", body, ty))]
+    elif m == "or_else":
+        arms = [(pat(yes, pb), ctor(yes, pv, ty)), ((pat(no, cp) if kind == "result" else pat(no, None)), body)]
+    else:
+        return n2
+    return {"k": "match", "scrut": n2["recv"], "arms": [{"pat": p_, "body": b_, "line": line} for p_, b_ in arms], "src": "Normal", "ty": ty, "line": line,
+            "desugared": m}
